@@ -549,7 +549,7 @@ def register(R: Registry):
         },
         returns="oref",
         options=dict(ghost_after=GHOST, hints=hints, asserts_after=ANNOT, modular=True, truth_hook=lambda E, x: truth_of_callback_values(E, x),
-                     no_recursion=NO_RECURSION),
+                     no_recursion=NO_RECURSION, recursion_limit_model=True),
         notes="callbacks are arbitrary (uninterpreted results, recorded by ghost observation arrays); termination of the stack loop is not proved",
     )
 
@@ -720,7 +720,9 @@ def register_fixed(R):
              "enter-after-parent-with-the-parents-value", "leave-after-all-children-with-exactly-their-values",
              "leave-receives-a-list-of-its-own-at-every-call", "returns-the-start-nodes-value"]
     R.add(f"{BASE}:_traverse_dfs", prop="C04", variants=variants, ensures=[(nm, fixed_post(nm)) for nm in posts],
-          options=dict(truth_hook=truth_of_callback_values),
+          # recursion_limit_model: a call that re-enters an active function may raise RecursionError (unknown stack budget), after exactly
+          # the callback calls made before it: a fallback behind `except RecursionError` then repeats calls in the log
+          options=dict(truth_hook=truth_of_callback_values, recursion_limit_model=True),
           notes=f"every parent table of at most {NMAX} nodes x every start node x which callbacks are given; callbacks arbitrary; loops executed, not cut")
 
 
